@@ -162,7 +162,7 @@ macro_rules! check_close {
     ($cx:expr, $S:ty, $got:expr, $want:expr, $scale:expr, $k:expr, $($arg:tt)*) => {{
         let g = $got;
         let w = $want;
-        if !$crate::dom::close::<$S>($cx, g, w, $scale, $k) {
+        if !$crate::dom::close::<$S>($cx, g, w, ($scale) as f64, ($k) as f64) {
             return Err($crate::driver::Fail::Violation(format!("{}: got {:?}, want {:?} (scale {:.3e}, k {})", format!($($arg)*), g, w, $scale as f64, $k as f64)));
         }
     }};
